@@ -34,7 +34,7 @@ Fixpoint find_region (off size : Z) (l : list region) : option region :=
   end.
 Definition live_total (l : list region) : Z := fold_right (fun r acc => r_size r + acc) 0 l.
 
-Definition pow2b (a : Z) : bool := (0 <? a) && (Z.land a (a - 1) =? 0).
+Definition pow2b (a : Z) : bool := (0 <? a) && (a =? 2 ^ (Z.log2 a)).
 Definition is_pow2 (a : Z) : Prop := exists k, 0 <= k /\ a = 2^k.
 
 (* ------------------------------------------------------------------ *)
@@ -86,7 +86,8 @@ Record SInv (s : sst) : Prop := {
   si_disj  : pairwise_disjoint (s_live s);
   si_ok    : Forall (region_ok (s_cap s)) (s_live s);
   si_free_live : forall x, freeB (s_free s) x -> ~ liveB (s_live s) x;
-  si_free_bound : forall x, freeB (s_free s) x -> 0 <= x < s_cap s
+  si_free_bound : forall x, freeB (s_free s) x -> 0 <= x < s_cap s;
+  si_cap : 0 <= s_cap s
 }.
 
 Inductive safe_trace : sst -> list (op * obs) -> sst -> Prop :=
@@ -213,3 +214,40 @@ Definition lost_after (pre : istate) (lost : Z) (o : op) (r : obs) (post : istat
    and every chunk must be inside the buffer *)
 Definition account_okb (i : istate) (get_free : Z) : bool :=
   (get_free =? total (norm (snd i))) && boundedb (snd i) (fst i).
+
+(* ------------------------------------------------------------------ *)
+(* Judging a whole observed walk (what the harness evaluates)           *)
+(* ------------------------------------------------------------------ *)
+Record ostep := mkO { o_op : op; o_obs : obs; o_post : istate; o_gf : Z }.
+
+Fixpoint check_walk (chk : istate -> list region -> op -> obs -> istate -> bool)
+   (pre : istate) (live : list region) (n : nat) (steps : list ostep) : option nat :=
+  match steps with
+  | [] => None
+  | st :: tl =>
+     if chk pre live (o_op st) (o_obs st) (o_post st)
+     then check_walk chk (o_post st) (live_after live (o_op st) (o_obs st)) (S n) tl
+     else Some n
+  end.
+Fixpoint check_account (n : nat) (steps : list ostep) : option nat :=
+  match steps with
+  | [] => None
+  | st :: tl => if account_okb (o_post st) (o_gf st) then check_account (S n) tl else Some n
+  end.
+(* a freshly created buffer of capacity cap: one free chunk [0,cap) *)
+Definition init_okb (i : istate) : bool :=
+  (0 <=? fst i) && chunks_eqb (norm (snd i)) (add_chunk [] (0, fst i)).
+
+Record walk := mkW { w_init : istate; w_steps : list ostep }.
+Definition walk_ff (w : walk) : option nat :=
+  if init_okb (w_init w) then check_walk ff_stepb (w_init w) [] 0 (w_steps w) else Some 0%nat.
+Definition walk_safe (w : walk) : option nat :=
+  if init_okb (w_init w) then check_walk safe_stepb (w_init w) [] 0 (w_steps w) else Some 0%nat.
+Definition walk_account (w : walk) : option nat := check_account 0 (w_steps w).
+
+(* indices (walk, step) of the first non-conforming step of each walk *)
+Fixpoint failing {A} (f : A -> option nat) (k : nat) (ws : list A) : list (nat * nat) :=
+  match ws with
+  | [] => []
+  | w :: tl => match f w with Some n => (k, n) :: failing f (S k) tl | None => failing f (S k) tl end
+  end.
